@@ -28,6 +28,7 @@ func main() {
 		noEv    = flag.Bool("no-evidence", false, "do not write evidence (self-test on scratch copies)")
 		list    = flag.Bool("list", false, "list properties and rules")
 		dump    = flag.Bool("dump-effects", false, "print the inventory of file-mutating call sites and their entry conditions")
+		dumpF   = flag.String("dump-fn", "", "print the canonical SSA form of a function (diagnosis)")
 		vdir    = flag.String("verif", "", "verif directory (default: directory above the binary, else /verif)")
 	)
 	flag.Parse()
@@ -51,6 +52,15 @@ func main() {
 	seed := 0
 	if s := os.Getenv("VERIF_SEED"); s != "" {
 		seed, _ = strconv.Atoi(s)
+	}
+	if *dumpF != "" {
+		c, err := load(*repo, "linux", "quick")
+		if err != nil {
+			fmt.Fprintln(os.Stderr, err)
+			os.Exit(2)
+		}
+		dumpFn(c, *dumpF)
+		return
 	}
 	if *dump {
 		c, err := load(*repo, "linux", "quick")
